@@ -271,3 +271,22 @@ class _Guard:
 
 def dumps(obj):
     return json.dumps(obj, indent=1, sort_keys=False, default=lambda o: repr(o)[:200])
+
+
+def absorb(ctx, d, prefix=""):
+    """Merge a dumped bus (dict from Ctx.dump of another process, e.g. the doctest run under pv.pytest_plugin) into ctx."""
+    with ctx._lock:
+        for k, v in d.get("evals", {}).items():
+            ctx.evals[k] = ctx.evals.get(k, 0) + v
+        for k, v in d.get("counters", {}).items():
+            ctx.counters[prefix + k] = ctx.counters.get(prefix + k, 0) + v
+        for k, v in d.get("classes", {}).items():
+            ctx.classes[k] = ctx.classes.get(k, 0) + v
+        ctx.fps_all.update(d.get("fps_all", []))
+        ctx.fps_nontrivial.update(d.get("fps_nontrivial", []))
+        ctx.ncases += d.get("ncases", 0)
+        for v in d.get("violations", []):
+            if len(ctx.violations) < MAX_VIOLATIONS:
+                ctx.violations.append(v)
+        ctx.nviolations += d.get("nviolations", 0)
+        ctx.inconclusive.extend(d.get("inconclusive", [])[:10])
